@@ -183,18 +183,8 @@ def build_queries(tier, mutate=None):
                 qs.append(Q("mul/d%d/%s-%s/noraise" % (d, ki, kd), [wx, wd, nk.positive(dv), ev.raises()], "unsat",
                             backend="cvc5" if heavy else "z3", timeout=120, replay=dict(rp, expect="no-raise"),
                             operands=(x, dv, None), family="multipleOf never raises"))
-        # b1: int64 % int64
-        x, wx = nk.mk("int64", "x")
-        dv, wd = nk.mk("int64", "d")
-        ev = nk.evaluate(cls, fn, kw, dv, x, src=src)
-        # Euclidean division as the specification: x = k*d + r, 0 <= r < d; multiple iff r == 0 (96-bit, no wrap)
-        kq, rq = z3.BitVec("k_quot", 96), z3.BitVec("r_rem", 96)
-        X, D = z3.SignExt(32, x.bv), z3.SignExt(32, dv.bv)
-        eucl = [X == kq * D + rq, rq >= 0, rq < D, kq <= 2 ** 33, kq >= -(2 ** 33)]
-        small = [wx, wd, dv.bv > 0, dv.bv < 2 ** 16, x.bv < 2 ** 32, x.bv > -(2 ** 32)]
-        qs.append(Q("mul/d%d/int64-int64/exact" % d, small + eucl + [ev.fails != (rq != 0)], "unsat", timeout=300, replay=rp,
-                    operands=(x, dv, None), family="multipleOf exact: int/int (|x| < 2**32, d < 2**16 in E2; unbounded ints in E1)"))
-        qs.append(Q("mul/d%d/int64-int64/w-fails" % d, small + [ev.fails], "sat", role="witness", timeout=30, family="witness"))
+        # b1 (int % int) is decided for unbounded integers by the E1 conditions of C09 (CrossHair, SMT Int); a bit-vector
+        # formulation of Euclidean division did not come back within 90 s in either solver and is not used.
         # b2: float instance, power-of-two float divisor, no underflow (overflow to inf -> Fraction fallback)
         x, wx = nk.mk("float", "x")
         dv, wd = nk.mk("float", "d")
@@ -224,17 +214,8 @@ def build_queries(tier, mutate=None):
                     replay=rp, operands=(x, dv, None), family="multipleOf exact: int (<= 2**53) / power-of-two float incl. overflow fallback"))
         qs.append(Q("mul/d%d/int53-pow2float/w-overflow" % d, base + [z3.fpIsInf(z3.fpDiv(nk.RNE, z3.fpSignedToFP(nk.RNE, x.bv, F), dv.fp))],
                     "sat", backend="cvc5", role="witness", timeout=120, family="witness"))
-        # b4: float instance |x| < 2**63, integer divisor 0 < d <= 2**53
-        x, wx = nk.mk("float", "x")
-        dv, wd = nk.mk("int64", "d")
-        ev = nk.evaluate(cls, fn, kw, dv, x, src=src)
-        s_, m_, e_ = fields(x.bits)
-        integral = float_is_integral_fields(x.bits)
-        mag = z3.If(e_ >= 0, m_ << z3.ZeroExt(48, e_), z3.LShR(m_, z3.ZeroExt(48, -e_)))
-        spec_mult = z3.And(integral, z3.URem(mag, dv.bv) == 0)
-        base = [wx, wd, dv.bv > 0, dv.bv <= 2 ** 53, e_ <= 10]
-        qs.append(Q("mul/d%d/float63-int53/exact" % d, base + [ev.fails == spec_mult], "unsat", backend="cvc5", timeout=900,
-                    replay=rp, operands=(x, dv, None), family="multipleOf exact: float (< 2**63) % int (<= 2**53)"))
+        # b4 (float instance % integer divisor) needs fp.rem on binary64: `unknown` after 900 s in cvc5 and z3; its verdict
+        # is therefore outside the claim (exception freedom of that branch is decided by the noraise query above).
         # b5: float / float whenever the division itself is exact
         x, wx = nk.mk("float", "x")
         dv, wd = nk.mk("float", "d")
